@@ -380,3 +380,35 @@ Proof.
   destruct (s_strip_dot s); [reflexivity | discriminate].
 Qed.
 
+
+(* ---------- 6. C07's reading of one pattern (regexps are NOT guarded against the empty name) ---------- *)
+Definition s_domain_holds_rx (k : kind) (s d : string) (hits : list string) : bool :=
+  match k with
+  | KFull => negb (String.eqb d "") && String.eqb d s
+  | KSuffix => negb (String.eqb d "") &&
+               (if prefix "." s then s_ends_with d s
+                else String.eqb d s || s_ends_with d (String "."%char s))
+  | KKeyword => negb (String.eqb d "") && s_contains d s
+  | KRegex => existsb (String.eqb s) hits
+  end.
+
+(* ... equals C11's on EVERY normalised name over the alphabet, the empty one included (the root question "."),
+   except that C11 (and the Go code) let an EMPTY full / suffix pattern match the empty name *)
+Lemma s_domain_holds_rx_pat_matches : forall (rx : str -> str -> bool) k s d hits,
+  pat_ok (bytes d) = true ->
+  (d = ""%string -> k <> KRegex -> s <> ""%string) ->
+  (k = KRegex -> existsb (String.eqb s) hits = rx (bytes s) (bytes d)) ->
+  s_domain_holds_rx k s d hits = pat_matches rx k (bytes s) (bytes d).
+Proof.
+  intros rx k s d hits Hok Hemp Hrx.
+  destruct (String.eqb_spec d "") as [->|Hne].
+  - destruct k; try (now apply Hrx);
+      (assert (Hs : s <> ""%string) by (apply Hemp; [reflexivity | discriminate]);
+       destruct s as [|c r]; [congruence|]; cbn [s_domain_holds_rx String.eqb negb andb bytes pat_matches]).
+    + reflexivity.
+    + destruct (N_of_ascii c =? ch_dot); reflexivity.
+    + reflexivity.
+  - rewrite <- (s_domain_holds_pat_matches rx k s d hits Hne Hok Hrx).
+    unfold s_domain_holds_rx, s_domain_holds.
+    replace (String.eqb d "") with false by (symmetry; now apply String.eqb_neq). now destruct k.
+Qed.
